@@ -1026,7 +1026,7 @@ def vc_is(a, b):
   if a is b:
     return True
   if a is None or b is None:
-    return False            # numeric / boolean proxies are never None
+    return False            # numeric / boolean proxies are never None (opaque values and references define vc_is themselves)
   if _real_isinstance(a, SymBool) or _real_isinstance(b, SymBool):
     other = b if _real_isinstance(a, SymBool) else a
     me = a if _real_isinstance(a, SymBool) else b
